@@ -64,6 +64,11 @@ func genReplay(r *propRun, s *vc.ObSummary, rep map[string]any) {
 }
 
 func pkgDirOf(r *propRun, s *vc.ObSummary) string {
+	// the directory of the file the failed obligation points into (two packages may share a name:
+	// pkg/basictl and its copy internal/vkgo/pkg/basictl)
+	if s.Worst != nil && s.Worst.Q != nil && s.Worst.Q.Pos.Filename != "" {
+		return filepath.Dir(s.Worst.Q.Pos.Filename)
+	}
 	// obligation names start with the short package name; find the loaded package with that name
 	short := s.Ob
 	if i := strings.Index(short, "."); i >= 0 {
